@@ -26,14 +26,16 @@ import (
 )
 
 type raceScenario struct {
-	name  string
-	base  string // "cache" | "files"
-	bound [2]int
+	name     string
+	base     string // "cache" | "files"
+	auxFirst bool   // the snapshot encoders started by the backup run before the writer resumes
+	bound    [2]int
 }
 
 var raceScenarios = []raceScenario{
 	{name: "backup x two writes (data in the cache)", base: "cache", bound: [2]int{1, 2}},
 	{name: "backup x two writes (data in files and cache)", base: "files", bound: [2]int{1, 2}},
+	{name: "backup x two writes (data in the cache), background goroutines first", base: "cache", auxFirst: true, bound: [2]int{1, 2}},
 }
 
 func raceBody(t *testing.T, sc raceScenario) func(tp *explore.Tape) explore.Outcome {
@@ -71,13 +73,14 @@ func raceBody(t *testing.T, sc raceScenario) func(tp *explore.Tape) explore.Outc
 			var errB, errW error
 			synctest.Wait()
 			res = vsync.Run(func(n int, label string, preempt bool) int { return tp.Choose(n, label) },
-				vsync.Config{Focus: []string{"github.com/influxdata/influxdb/tsdb"}},
-				func() { errB = env.Store.BackupShard(ek.ShardID, time.Time{}, &buf) },
+				vsync.Config{Focus: []string{"github.com/influxdata/influxdb/tsdb"}, AuxFirst: sc.auxFirst},
+				// the writer is the first thread: one deviation then places the whole backup at any point inside a write
 				func() {
 					if errW = env.Write(w1); errW == nil {
 						errW = env.Write(w2)
 					}
-				})
+				},
+				func() { errB = env.Store.BackupShard(ek.ShardID, time.Time{}, &buf) })
 			if res.Deadlock || res.Livelock {
 				out.Violation = fmt.Sprintf("deadlock=%v livelock=%v: %s", res.Deadlock, res.Livelock, strings.Join(res.Stuck, "; "))
 				out.Sig = "backup-race:deadlock"
@@ -140,7 +143,7 @@ func racePart(t *testing.T, c *report.Check) {
 		if c.Thorough() {
 			bound = sc.bound[1]
 		}
-		r := explore.ExploreProcs(explore.ProcConfig{Scenario: sc.name, Bound: bound, Procs: 16, Budget: 50, MaxExecs: int64(c.Pick(20000, 200000))})
+		r := explore.ExploreProcs(explore.ProcConfig{Scenario: sc.name, Bound: bound, Procs: 16, Budget: 50, MaxExecs: int64(c.Pick(20000, 30000))})
 		c.AddExplore(fmt.Sprintf("schedules: %s (delay bound %d)", sc.name, bound), r, map[string]any{"part": "race", "scenario": sc.name, "bound": bound})
 	}
 }
